@@ -359,6 +359,11 @@ pub fn random_walks(out: &mut Shards, n: usize, menus: bool, rng: &mut Rng) -> u
                 None => break, // an action listed as legal is refused: the st line of g records it
             };
             hist.push(a);
+            // every hand ends within 2 * STACK + 16 actions (C03_terminates); a line far beyond that is reported, not followed
+            if hist.len() > 400 {
+                out.line(&format!("stuck {} | {}", w, hist.len()));
+                break;
+            }
         }
     }
     steps
